@@ -24,6 +24,10 @@ TRUSTED_BASE = [
     "represented by the layout, validated by the stream, not proved: dir() (alphabetical attribute listing), glob/os.listdir+sorted, "
     "inspect, the import system, and the values handed out by the global counter Metadata._next_rank (simulated by "
     "c13_layout.with_ranks and compared with the ranks of the loaded tree)",
+    "Python's truth protocol on the value a visible_if condition returns: modelled by PyVal.truthy for the generated value shapes "
+    "(None, bool, int, float incl. -0.0/nan/inf, str, list/tuple/dict by length, plain instance, instance with __bool__, instance "
+    "with __len__); re-validated against the real interpreter and the real loader on every run by the extracted tables "
+    "(Generated/C13TablesCheck.lean, 8 obligations over 4 tables of 125 rows); the oracle uses its own table pv_truthy",
 ]
 ASSUMPTIONS = [
     "each case is loaded as in a fresh interpreter: Metadata._next_rank reset to 1, builder._objects_with_metadata cleared, "
@@ -35,6 +39,9 @@ ASSUMPTIONS = [
     "int/str parameter values; custom callables, add_test_into_suite, inherited test methods and SUITE dicts of wrong type are not generated",
     "duplicate names among the top-level suites returned by load_suites_from_directory are not 'within one suite' and are not checked "
     "by the loader (modelled as accepted)",
+    "visible_if conditions do not raise and are pure; what they return is computed at load time from a constant, an environment "
+    "variable (set / unset by the harness around the load), an attribute of the object they receive, len() of such an attribute or "
+    "the item's own identifier; values of other types (bytes, sets, numpy arrays, objects whose __bool__ raises) are not generated",
 ]
 RULE = ("a layout counts if its declared tree has >= 2 levels of suites somewhere (a test at depth >= 3 of its path) and contains at "
         "least one of: hidden item, conditional (visible_if) item, parametrized test, directory without module, single-class "
@@ -42,15 +49,78 @@ RULE = ("a layout counts if its declared tree has >= 2 levels of suites somewher
 EXPLANATION = ("Theorems over all layouts (LccModel.C13.*) proved in Lean by structural induction; the model is tied to loader.py by "
                "rendering generated layouts to real source trees, loading them with the real loader and comparing the whole tree "
                "(paths, order, names, descriptions, ranks, tags, properties, links, disabled, parameters, or the error class and "
-               "kind); the oracle compares the loaded tree with the generator's own declaration list.")
+               "kind); the oracle compares the loaded tree with the generator's own declaration list (an item under visible_if is "
+               "declared iff the value its condition returns is a true value by the harness's own truth table). The loader's "
+               "decision for every value shape is extracted from the real code as tables and re-proved against the model.")
 
 
 # ---------------------------------------------------------------------------------------------
 # the generator's own declaration list (oracle side; never calls the Lean model)
 # ---------------------------------------------------------------------------------------------
 
-def _visible(v):
-    return v is None or v is True or v == "always"
+def pv_truthy(pv):
+    """The harness's own truth table for the value shapes a visible_if condition returns (Python's truth protocol:
+    None, False, numeric zeros, empty text and empty containers are false; an instance is asked __bool__, else
+    __len__, else it is true).  Written from the language rule, not from the loader and not from the Lean model."""
+    t = pv["t"]
+    if t == "none":
+        return False
+    if t == "bool":
+        return pv["v"] is True
+    if t == "int":
+        return pv["v"] != 0
+    if t == "float":
+        return pv["k"] in ("nan", "inf") or (pv["k"] == "fin" and pv["milli"] != 0)
+    if t == "str":
+        return len(pv["v"]) > 0
+    if t in ("list", "tuple", "dict", "objlen"):
+        return pv["n"] > 0
+    if t == "obj":
+        return True
+    if t == "objbool":
+        return pv["v"] is True
+    raise ValueError(pv)
+
+
+class Flags(set):
+    """feature flags collected while the declaration list is computed"""
+
+
+def _visible(v, attr=None, flags=None):
+    """the property's single reading: no condition => visible; hidden() => not; visible_if(c) => visible iff c(obj) is a
+    true value (whatever kind of callable c is)"""
+    if v is None or v == "always":
+        return True
+    if v == "hidden":
+        return False
+    return pv_truthy(L.cond_pv(v, attr))
+
+
+def _fh(v, attr, flags):
+    """hidden by a condition that returns a false value AND is itself a false value (callable instance with __bool__ /
+    __len__): the input class of the repaired finding D36 — recorded only to label a regression"""
+    r = isinstance(v, dict) and v.get("callable") == "falsy-obj" and not pv_truthy(L.cond_pv(v, attr))
+    if r:
+        flags.add("falsy-callable-hides")
+    return r
+
+
+def _cond_flags(v, attr, level, flags):
+    if v is None:
+        return
+    if v == "hidden":
+        flags.add("hidden")
+        return
+    flags.add("conditional")
+    flags.add("cond-level:" + level)
+    pv = L.cond_pv(v, attr)
+    tr = pv_truthy(pv)
+    flags.add("cond:" + ("bool" if pv["t"] == "bool" else ("truthy" if tr else "falsy") + "-nonbool"))
+    flags.add("cond-value:%s:%s" % (pv["t"], "T" if tr else "F"))
+    if isinstance(v, dict):
+        flags.add("cond-via:" + v["via"])
+        if v.get("callable", "lambda") != "lambda":
+            flags.add("cond-callable:" + v["callable"])
 
 
 def _desc_from_name(n):
@@ -89,9 +159,9 @@ def x_tests(tests, flags, in_class=False):
             flags.add("dunder-member")
         name = t.get("name") or t["attr"]
         desc = t.get("desc") or _desc_from_name(name)
-        base = dict(_meta_of(t), rank=t["rank"], disabled=_disabled_of(t), visible=_visible(t.get("vis")), dunder=dunder)
-        if t.get("vis") is not None:
-            flags.add("hidden" if t["vis"] == "hidden" else "conditional")
+        base = dict(_meta_of(t), rank=t["rank"], disabled=_disabled_of(t), visible=_visible(t.get("vis"), t["attr"], flags),
+                    fh=_fh(t.get("vis"), t["attr"], flags), dunder=dunder)
+        _cond_flags(t.get("vis"), t["attr"], "test", flags)
         if t.get("disabled"):
             flags.add("disabled")
         p = t.get("param")
@@ -113,8 +183,7 @@ def x_tests(tests, flags, in_class=False):
 
 
 def x_cls(c, flags, in_class=False):
-    if c.get("vis") is not None:
-        flags.add("hidden" if c["vis"] == "hidden" else "conditional")
+    _cond_flags(c.get("vis"), c["attr"], "class", flags)
     if c.get("ctor_fails"):
         flags.add("INVALID:ctor")
     if c.get("xrank") is not None:
@@ -123,7 +192,7 @@ def x_cls(c, flags, in_class=False):
     dunder = in_class and c["attr"].startswith("__")
     if dunder:
         flags.add("dunder-member")
-    return {"name": name, "desc": c.get("desc") or _desc_from_name(name), "rank": c["rank"], "visible": _visible(c.get("vis")),
+    return {"name": name, "desc": c.get("desc") or _desc_from_name(name), "rank": c["rank"], "visible": _visible(c.get("vis"), c["attr"], flags), "fh": _fh(c.get("vis"), c["attr"], flags),
             "origin": "class", "dunder": dunder, "tests": x_tests(c["tests"], flags, True),
             "subs": [x_cls(s, flags, True) for s in sorted(c["subs"], key=lambda s: (s["rank"], s["attr"]))]}
 
@@ -139,9 +208,9 @@ def x_module(m, flags):
     else:
         name = info["name"] if info.get("name") is not None else m["stem"]
         node.update(name=name, desc=info["desc"] if info.get("desc") is not None else _desc_from_name(name),
-                    rank=info["xrank"] if info.get("xrank") is not None else m["auto_rank"], visible=_visible(info.get("vis")))
-        if info.get("vis") is not None:
-            flags.add("conditional")
+                    rank=info["xrank"] if info.get("xrank") is not None else m["auto_rank"], visible=_visible(info.get("vis"), None, flags),
+                    fh=_fh(info.get("vis"), None, flags))
+        _cond_flags(info.get("vis"), None, "module", flags)
         if info.get("xrank") is not None:
             flags.add("explicit-rank")
     return node
@@ -215,6 +284,19 @@ def x_entries(nodes, prefix=(), via=False):
     return out
 
 
+def x_fh_paths(nodes, prefix=(), via=False):
+    """paths of the tests that are hidden only through items of the class `_fh` (where the unrepaired loader showed them)"""
+    out = []
+    for n in nodes:
+        p = prefix + (n["name"],)
+        v = via or bool(n.get("fh"))
+        for t in n["tests"]:
+            if (t["visible"] or t.get("fh")) and (v or t.get("fh")):
+                out.append(p + (t["name"],))
+        out += x_fh_paths([s for s in n["subs"] if s["visible"] or s.get("fh")], p, v)
+    return out
+
+
 def _dups(xs):
     seen = set()
     for x in xs:
@@ -253,7 +335,7 @@ def declared(case):
     """-> dict(entries, strict_dup, loose_dup, flags, invalid)   (entries: the generator's declaration list)"""
     entry, pick = case["entry"], case.get("pick")
     lay = L.with_ranks(case["layout"], entry, pick)
-    flags, extra = set(), []
+    flags, extra = Flags(), []
     if entry == "dir":
         nodes = x_dir(lay, flags, extra)
     elif entry == "files":
@@ -271,7 +353,8 @@ def declared(case):
         c = [c for c in m["classes"] if c["attr"] == pick[1]][0]
         nodes = [dict(x_cls(c, flags), visible=True)]
     entries = x_entries(nodes)
-    return {"entries": entries, "strict_dup": x_strict_dup(nodes), "loose_dup": x_loose_dup(nodes + extra),
+    return {"entries": entries, "falsy_hidden": x_fh_paths(nodes + [n for n in extra if n.get("fh")], (), False) if "falsy-callable-hides" in flags else [],
+            "strict_dup": x_strict_dup(nodes), "loose_dup": x_loose_dup(nodes + extra),
             "flags": sorted(flags), "invalid": any(f.startswith("INVALID") for f in flags),
             "depth": max([len(e["path"]) for e in entries] + [0])}
 
@@ -334,7 +417,14 @@ def observe(case):
     root = os.path.join(top, "suites")
     old_dwb = sys.dont_write_bytecode
     sys.dont_write_bytecode = True
+    env = L.env_of(case["layout"])      # what the conditions read from the environment at load time
+    saved_env = {k: os.environ.get(k) for k in env}
     try:
+        for k, val in env.items():
+            if val is None:
+                os.environ.pop(k, None)
+            else:
+                os.environ[k] = val
         L.render(case["layout"], root)
         builder.Metadata._next_rank = 1
         builder._objects_with_metadata.clear()
@@ -357,6 +447,11 @@ def observe(case):
         except Exception as e:      # classified: the loader's exceptions are part of the observation
             return {"error": _classify(e)}
     finally:
+        for k, val in saved_env.items():
+            if val is None:
+                os.environ.pop(k, None)
+            else:
+                os.environ[k] = val
         sys.dont_write_bytecode = old_dwb
         for k in [k for k in sys.modules if isinstance(k, str) and k.startswith(top)]:
             del sys.modules[k]
@@ -373,12 +468,16 @@ def _j_meta(it):
             "links": [list(l) for l in it.get("links") or []]}
 
 
-def _j_vis(v):
-    return "always" if v is None else v
+def _j_vis(v, attr=None):
+    if v is None:
+        return "always"
+    if v == "hidden" or v is True or v is False:
+        return v
+    return {"cond": L.cond_pv(v, attr), "self_truthy": v.get("callable") != "falsy-obj"}
 
 
 def _j_test(t):
-    j = dict(_j_meta(t), attr=t["attr"], name=t.get("name"), desc=t.get("desc"), rank=t["rank"], vis=_j_vis(t.get("vis")),
+    j = dict(_j_meta(t), attr=t["attr"], name=t.get("name"), desc=t.get("desc"), rank=t["rank"], vis=_j_vis(t.get("vis"), t["attr"]),
              disabled=t.get("disabled") or False, param=None)
     if t.get("param"):
         j["param"] = {"sets": t["param"]["sets"], "naming": t["param"]["naming"]}
@@ -386,7 +485,7 @@ def _j_test(t):
 
 
 def _j_cls(c):
-    return dict(_j_meta(c), attr=c["attr"], name=c.get("name"), desc=c.get("desc"), rank=c["rank"], vis=_j_vis(c.get("vis")),
+    return dict(_j_meta(c), attr=c["attr"], name=c.get("name"), desc=c.get("desc"), rank=c["rank"], vis=_j_vis(c.get("vis"), c["attr"]),
                 disabled=c.get("disabled") or False, ctor_fails=bool(c.get("ctor_fails")),
                 tests=[_j_test(t) for t in c["tests"]], subs=[_j_cls(s) for s in c["subs"]])
 
@@ -490,6 +589,20 @@ def _shrink_lists(obj, path=()):
                 c = copy.deepcopy(obj)
                 c[k] = None
                 yield c
+                if k == "vis" and isinstance(v, dict):
+                    # a computed condition: as a constant returning the same value, with a plain lambda, as a plain bool
+                    pv = L.cond_pv(v, obj.get("attr"))
+                    if v["via"] != "const":
+                        c = copy.deepcopy(obj)
+                        c[k] = dict(v, pv=copy.deepcopy(pv), via="const")
+                        yield c
+                    if v.get("callable", "lambda") != "lambda":
+                        c = copy.deepcopy(obj)
+                        c[k] = dict(copy.deepcopy(v), callable="lambda")
+                        yield c
+                    c = copy.deepcopy(obj)
+                    c[k] = pv_truthy(pv)
+                    yield c
 
 
 def _t(attr, **kw):
@@ -514,6 +627,55 @@ def _m(stem, tests=(), classes=(), **kw):
 # minimal witness of the open finding D18 (= LccModel.C13.dunderWitness)
 WITNESS_D18 = {"entry": "dir", "defect": None, "layout": {"name": "suites", "noise": False, "dirs": [], "mods": [
     _m("m", classes=[_c("K", [_t("__dunder__", pos=0), _t("normal", pos=1)])])]}}
+
+def _cond(pv, via="const", key="k1", call="lambda"):
+    return {"pv": pv, "via": via, "key": key, "callable": call}
+
+
+def _info(**kw):
+    d = {"name": None, "desc": None, "xrank": None, "vis": None, "tags": [], "props": [], "links": []}
+    d.update(kw)
+    return d
+
+
+_PV = L._pv
+
+# minimal witness of the repaired finding D36 (= LccModel.C13.falsyCondWitness): the condition callable is itself a false value;
+# it was loaded before the repair and must stay hidden
+WITNESS_D36 = {"entry": "dir", "defect": None, "layout": {"name": "suites", "noise": False, "dirs": [], "mods": [
+    _m("m", tests=[_t("gated", pos=0, vis=_cond(_PV("bool", v=False), call="falsy-obj")), _t("normal", pos=1)])]}}
+
+# visible_if conditions returning values that are false without being False / true without being True, computed at load
+# time, on all three levels (minimised failing inputs of the seeded change C13-4, `condition(obj) is False`)
+COND_SHAPES = [
+    # one test function whose condition reads an unset environment variable (os.environ.get -> None)
+    {"entry": "dir", "defect": None, "layout": {"name": "suites", "noise": False, "dirs": [], "mods": [
+        _m("api", tests=[_t("ping", pos=0), _t("slow_ping", pos=1, vis=_cond(_PV("none"), "env", "slow"))])]}},
+    # a class hidden by len() == 0 of a class attribute, a method hidden by 0, shown by '0'; a module hidden by ''
+    {"entry": "dir", "defect": None, "layout": {"name": "suites", "noise": False, "dirs": [], "mods": [
+        _m("api", tests=[_t("ping", pos=0), _t("fast_ping", pos=1, vis=_cond(_PV("str", v="0"), "env", "fast"))],
+           classes=[_c("nightly", [_t("full_scan")], vis=_cond(_PV("int", v=0), "len", "feat"), pos=2),
+                    _c("daily", [_t("quick_scan", pos=0), _t("experimental_scan", pos=1, vis=_cond(_PV("int", v=0), "envint", "exp")),
+                                 _t("listed", pos=2, vis=_cond(_PV("list", n=1), "attr", "lst"))], pos=3)]),
+        _m("legacy", tests=[_t("old_stuff")], info=_info(vis=_cond(_PV("str", v=""), "attr", "flag"))),
+        _m("shown", tests=[_t("kept")], info=_info(vis=_cond(_PV("float", k="nan"))))]}},
+    # every false value and a few true ones on the methods of one class (entry point load_suite_from_class); count('_') of the name
+    {"entry": "class", "pick": ["m", "S"], "defect": None, "layout": {"name": "suites", "noise": False, "dirs": [], "mods": [
+        _m("m", classes=[_c("S", [_t("f%02d" % i, pos=i, vis=_cond(pv, key="c%d" % i)) for i, pv in enumerate(L.FALSY_PVS)] +
+                            [_t("t%02d" % i, pos=20 + i, vis=_cond(pv, key="d%d" % i)) for i, pv in enumerate(L.TRUTHY_PVS[1:8])] +
+                            [_t("nounderscore", pos=40, vis=_cond(None, "count", "n1")), _t("with_underscore", pos=41, vis=_cond(None, "count", "n2"))],
+                         [_c("Plain", [_t("p")], vis=_cond(None, "count", "n3"), pos=50), _c("Under_score", [_t("u")], vis=_cond(None, "count", "n4"), pos=51)])])]}},
+    # a hidden-by-None class does not prevent the single-class collapse; a hidden-by-0 module leaves its directory to a synthetic suite
+    {"entry": "dir", "defect": None, "layout": {"name": "suites", "noise": False, "mods": [
+        _m("b", tests=[_t("hidden_fn", pos=0, vis=_cond(_PV("tuple", n=0)))],
+           classes=[_c("b", [_t("b1")], pos=1), _c("Side", [_t("s1")], vis=_cond(_PV("none"), "attr", "side"), pos=2)]),
+        _m("h", tests=[_t("h1")], info=_info(vis=_cond(_PV("int", v=0), "envint", "hmod")))],
+        "dirs": [{"name": "h", "noise": False, "dirs": [], "mods": [_m("s", tests=[_t("s1")])]}]}},
+    # callable instances as conditions (truthy ones behave like lambdas)
+    {"entry": "file", "pick": "m", "defect": None, "layout": {"name": "suites", "noise": False, "dirs": [], "mods": [
+        _m("m", tests=[_t("a", pos=0, vis=_cond(_PV("objbool", v=False), call="obj")), _t("b", pos=1, vis=_cond(_PV("objlen", n=3), call="obj")),
+                       _t("c", pos=2, vis=_cond(_PV("str", v="x"), call="falsy-obj"))])]}},
+]
 
 # hand-written shapes replayed first on every run
 CORPUS_SHAPES = [
@@ -561,7 +723,7 @@ class Load(C.Stream):
     quick_seconds = 38
     thorough_seconds = 420
     chunk = 60
-    corpus = [WITNESS_D18] + CORPUS_SHAPES
+    corpus = [WITNESS_D18, WITNESS_D36] + COND_SHAPES + CORPUS_SHAPES
 
     def gen(self, rng, i):
         lay = L.gen_layout(rng)
@@ -592,6 +754,23 @@ class Load(C.Stream):
 
     def oracle(self, case, obs):
         dec = declared(case)
+        fails = self.judge(dec, obs)
+        if fails and dec["falsy_hidden"] and "ok" in obs:
+            # label only (the failures above stand as they are): the regression of the repaired finding D36 — an item whose
+            # condition returns a false value is loaded when the condition callable is itself a false value
+            # (`md.condition and not md.condition(obj)` never called it)
+            ep = {tuple(e["path"]) for e in dec["entries"]}
+            fh = set(dec["falsy_hidden"])
+            shown = [".".join(e["path"]) for e in obs["flat"] if tuple(e["path"]) not in ep and tuple(e["path"]) in fh]
+            if shown:
+                fails.insert(0, C.Failure(
+                    "C13/falsy-condition-callable-never-consulted",
+                    f"visible_if(c) with c(obj) false and c itself a false value (callable instance with __bool__/__len__): the item "
+                    f"is loaded although it is not declared visible: {shown[:4]}"))
+        return fails[:3]
+
+    def judge(self, dec, obs):
+        """the property statement on one observation of the real loader, against the declaration list `dec`"""
         fails = []
         exp = dec["entries"]
         if "ok" in obs:
@@ -731,3 +910,156 @@ class Malformed(Load):
 
 def streams(ctx):
     return [Load(), Malformed()]
+
+
+# ---------------------------------------------------------------------------------------------
+# decision table: what the real loader does with each value a visible_if condition may return
+# ---------------------------------------------------------------------------------------------
+
+TABLE_OPENS = ("LccModel.Loader",)
+
+# every generated value shape, plus a few more of the same shapes
+TABLE_PVS = L.FALSY_PVS + L.TRUTHY_PVS + [L._pv("int", v=-7), L._pv("int", v=10 ** 12), L._pv("float", k="fin", milli=1),
+                                        L._pv("str", v="None"), L._pv("str", v="\x00"), L._pv("list", n=3), L._pv("tuple", n=2),
+                                        L._pv("dict", n=2), L._pv("objlen", n=1)]
+
+
+def _lean_str(x):
+    return '"' + "".join(ch if 32 <= ord(ch) < 127 and ch not in '"\\' else "\\u%04x" % ord(ch) for ch in x) + '"'
+
+
+def lean_pv(pv):
+    t = pv["t"]
+    if t == "none":
+        return "PyVal.none"
+    if t == "bool":
+        return "PyVal.bool %s" % ("true" if pv["v"] else "false")
+    if t == "int":
+        return "PyVal.int (%d)" % pv["v"]
+    if t == "float":
+        k = pv["k"]
+        f = {"fin": "PyFloat.fin (%d)" % pv.get("milli", 0), "negzero": "PyFloat.negZero", "nan": "PyFloat.nan",
+             "inf": "PyFloat.inf %s" % ("true" if pv.get("neg") else "false")}[k]
+        return "PyVal.float (%s)" % f
+    if t == "str":
+        return "PyVal.str %s" % _lean_str(pv["v"])
+    if t in ("list", "tuple", "dict"):
+        return "PyVal.%s %d" % (t, pv["n"])
+    if t == "obj":
+        return "PyVal.obj"
+    if t == "objbool":
+        return "PyVal.objBool %s" % ("true" if pv["v"] else "false")
+    if t == "objlen":
+        return "PyVal.objLen %d" % pv["n"]
+    raise ValueError(pv)
+
+
+def lean_vis(v):
+    if v is None:
+        return "Vis.always"
+    if v == "hidden":
+        return "Vis.hidden"
+    return "Vis.cond %s (%s)" % ("false" if v["callable"] == "falsy-obj" else "true", lean_pv(v["pv"]))
+
+
+def _B(b):
+    return "true" if b else "false"
+
+
+def tables(ctx):
+    """Run the REAL `_load_test` / `_load_tests`, `load_suite_from_class` / `load_suites_from_classes`,
+    `load_suite_from_module` / `load_suites_from_directory` / `load_suites_from_files` on one item per condition
+    (no condition, @lcc.hidden(), and visible_if(c) for each of three kinds of callable and every value shape c may return);
+    record the truth value of the `.hidden` attribute the loader stores and whether each reader keeps the item.
+    `Generated/C13TablesCheck.lean` re-proves the model's decision (`Vis.hiddenAttr`, `Vis.shown`, and the loader model run on
+    the same one-item layouts) against these rows by `decide`."""
+    import types
+    from lemoncheesecake.suite import loader, builder
+    import lemoncheesecake.api as lcc
+
+    ns = {}
+    exec(L.PRELUDE, ns)
+    conds = [None, "hidden"] + [L._const_cond(pv, call) for call in ("lambda", "obj", "falsy-obj") for pv in TABLE_PVS]
+
+    def callable_of(v, var):
+        return eval(L.cond_src(v, var, "test", None), dict(ns))
+
+    def deco(v, var):
+        if v is None:
+            return lambda o: o
+        if v == "hidden":
+            return lcc.hidden()
+        return lcc.visible_if(callable_of(v, var))
+
+    rows_fn, rows_meth, rows_cls, rows_mod = [], [], [], []
+    top = tempfile.mkdtemp(prefix="lccverif-c13tab-")
+    old_dwb = sys.dont_write_bytecode
+    sys.dont_write_bytecode = True
+    try:
+        # module level needs files: one module per condition in one directory
+        root = os.path.join(top, "suites")
+        os.makedirs(root)
+        for i, v in enumerate(conds):
+            info = None if v is None else {"name": None, "desc": None, "xrank": None, "tags": [], "props": [], "links": [],
+                                           "vis": False if v == "hidden" else v}
+            # `@lcc.hidden()` has no module-level form: SUITE['visible_if'] = lambda mod: False is what it expands to
+            m = _m("v%03d" % i, tests=[_t("t")], info=info)
+            with open(os.path.join(root, m["stem"] + ".py"), "w", encoding="utf-8") as fh:
+                fh.write("# -*- coding: utf-8 -*-\n" + L.module_src(m))
+        builder.Metadata._next_rank = 1
+        in_dir = {s.name for s in loader.load_suites_from_directory(root)}
+        in_files = {s.name for s in loader.load_suites_from_files(os.path.join(root, "*.py"))}
+        for i, v in enumerate(conds):
+            stem = "v%03d" % i
+            from lemoncheesecake.helpers.moduleimport import import_module
+            mod = import_module(os.path.join(root, stem + ".py"))
+            h = bool(loader.load_suite_from_module(mod).hidden)
+            vv = "hidden" if v == "hidden" else v
+            rows_mod.append((lean_vis(vv), "(%s, %s, %s)" % (_B(h), _B(stem in in_dir), _B(stem in in_files)),
+                             "module %s: SUITE visible_if %s -> hidden=%s in_directory=%s in_files=%s" % (
+                                 stem, "-" if v is None else "lambda mod: False" if v == "hidden" else L.cond_src(v, "mod", "module", None),
+                                 h, stem in in_dir, stem in in_files)))
+
+        for v in conds:
+            desc = "-" if v is None else "hidden()" if v == "hidden" else L.cond_src(v, "x", "test", None)
+            # test function
+            def fn():
+                pass
+            fn = deco(v, "x")(lcc.test("d")(fn))
+            h = bool(loader._load_test(fn).hidden)
+            kept = len(list(loader._load_tests([fn])))
+            rows_fn.append((lean_vis(v), "(%s, %d)" % (_B(h), kept), "function: %s -> hidden=%s yielded=%d" % (desc, h, kept)))
+
+            # test method of a suite class, nested class of a suite class
+            class Inner:
+                @lcc.test("inner t")
+                def t(self):
+                    pass
+            Inner = deco(v, "x")(lcc.suite("inner")(Inner))
+
+            def meth(self):
+                pass
+            meth = deco(v, "x")(lcc.test("m")(meth))
+            Outer = lcc.suite("outer")(type("Outer", (), {"meth": meth, "Inner": Inner}))
+            inst = Outer()
+            h = bool(loader._load_test(inst.meth).hidden)
+            suite = loader.load_suite_from_class(Outer)
+            rows_meth.append((lean_vis(v), "(%s, %d)" % (_B(h), len(suite.get_tests())),
+                              "method: %s -> hidden=%s tests of the class=%d" % (desc, h, len(suite.get_tests()))))
+            hc = bool(loader.load_suite_from_class(Inner).hidden)
+            rows_cls.append((lean_vis(v), "(%s, %d, %d)" % (_B(hc), len(loader.load_suites_from_classes([Inner])), len(suite.get_suites())),
+                             "class: %s -> hidden=%s load_suites_from_classes=%d nested suites of the class=%d" % (
+                                 desc, hc, len(loader.load_suites_from_classes([Inner])), len(suite.get_suites()))))
+    finally:
+        sys.dont_write_bytecode = old_dwb
+        for k in [k for k in sys.modules if isinstance(k, str) and k.startswith(top)]:
+            del sys.modules[k]
+        builder._objects_with_metadata.clear()
+        shutil.rmtree(top, ignore_errors=True)
+    imports = ("LccModel.Model.Loader",)
+    return [
+        C.Table("testFunctionCondTable", "List (Vis × (Bool × Nat))", rows_fn, imports),
+        C.Table("testMethodCondTable", "List (Vis × (Bool × Nat))", rows_meth, imports),
+        C.Table("classCondTable", "List (Vis × (Bool × Nat × Nat))", rows_cls, imports),
+        C.Table("moduleCondTable", "List (Vis × (Bool × Bool × Bool))", rows_mod, imports),
+    ]
